@@ -179,6 +179,11 @@ func (r *Result) Finish(verifDir, tier string, seed int, explanation, rule strin
 	}
 	r.Obls = obls
 
+	if os.Getenv("VERIF_LIST") != "" {
+		for _, o := range r.Obls {
+			fmt.Printf("OBL %-10s %-12s %s @%s :: %s\n", o.Rule, o.Verdict, o.Key, o.Pos, o.Reason)
+		}
+	}
 	var violations, known []Obligation
 	discharged, nontrivial, exceptions := 0, 0, 0
 	perRule := map[string][2]int{}
